@@ -125,6 +125,37 @@ def judge(texts):
     return None
 
 
+BAD_SUFFIX = ['-x', '[1', '.', '..y', '[a]', ' z', ']', '[1]x', '.[0]', '[-1', '[ 1]', '[1].', '!', '/y', '.y-z', '[0][', '.0y']
+
+
+def gen_malformed(rng):
+    """a reference whose text is an existing path followed by something that is not path syntax: it denotes no node, so it must be
+    reported - never silently resolved to the node its valid prefix names (the reference graph above is computed with the library's
+    own path parser; this oracle does not use it)"""
+    import json
+    basep = rng.choice(['opt.lr', 'data', 'data[0]', 'opt', 'data[1].k'])
+    ref = basep + rng.choice(BAD_SUFFIX)
+    where = rng.choice(['r: !xref %s', 'l: [0, !xref %s]', 'c: !call:vmod.f {a: !xref %s}', 'm: {n: !ref %s}'])
+    ents = ['opt: {lr: 5}', 'data: [[1, 2], {k: 3}]', where % json.dumps(ref)]
+    rng.shuffle(ents)
+    return ['{' + ', '.join(ents) + '}']
+
+
+def judge_malformed(texts):
+    from awesomeyaml.config import Config
+    evalcorr.install_vmod()
+    k, root = oracles.build(texts)
+    if k != 'ok':
+        return None
+    try:
+        base.with_watchdog(lambda: Config(root))
+    except base.Hang:
+        return dict(texts=texts, reason='evaluation does not terminate')
+    except Exception as e:
+        return None if evalcorr.err_kind(e) == 'EEval' else dict(texts=texts, reason='a reference to a path that does not exist must be an evaluation error', got=evalcorr.err_kind(e))
+    return dict(texts=texts, reason='a reference whose text denotes no existing path evaluated without an error (it silently aliased another node)')
+
+
 def run(rep, tier, rng):
     rep.rule = ('single- and two-document configs with !xref/!ref over their own paths: forward and backward references, chains, fan-in, references into and out of lists, '
                 'mappings and call arguments, dangling references, self-references, cycles and tails leading into cycles. non-trivial = at least 2 references; distinct = hash')
@@ -137,12 +168,14 @@ def run(rep, tier, rng):
     for t in inputs:
         rep.case('\n'.join(t), sum(x.count('!xref') + x.count('!ref') for x in t) >= 2, sample=t)
     base.run_oracle(rep, 'C09', 'aliasing / error / termination vs reference graph', inputs, judge)
+    base.run_oracle(rep, 'C09', 'references with a malformed tail denote no node and are reported', [gen_malformed(rng) for _ in range(80 if tier == 'quick' else 1500)],
+                    judge_malformed, show=lambda t: dict(malformed=True, texts=t))
 
 
 def replay(data):
     r = data['replay']
     if 'input' in r:
-        f = judge(r['input'])
+        f = judge_malformed(r['input']['texts']) if isinstance(r['input'], dict) and r['input'].get('malformed') else judge(r['input'])
         print('replay:', 'property FAILS' if f else 'property holds', f or '')
         return 1 if f else 0
     print('no input to replay; broken obligations:', r)
